@@ -104,6 +104,10 @@ Proof. exact generated_deps. Qed.
 Theorem c13_modelled_functions_unchanged_request : shapes_hold fn_shapes shapes_request = true.
 Proof. exact generated_shapes_request. Qed.
 
+(* the cargo features are independent switches with nothing on by default: a feature set of the model means exactly its cfgs *)
+Theorem c13_feature_table_unchanged : features_hold cargo_features = true.
+Proof. exact generated_features. Qed.
+
 Eval vm_compute in "ASSUMPTIONS c13_fits_unchanged". Print Assumptions c13_fits_unchanged.
 Eval vm_compute in "ASSUMPTIONS c13_truncate". Print Assumptions c13_truncate.
 Eval vm_compute in "ASSUMPTIONS c13_floor_never_panics". Print Assumptions c13_floor_never_panics.
@@ -116,3 +120,4 @@ Eval vm_compute in "ASSUMPTIONS c13_modelled_functions_unchanged_strings". Print
 Eval vm_compute in "ASSUMPTIONS c13_lossy_members_always_bounded". Print Assumptions c13_lossy_members_always_bounded.
 Eval vm_compute in "ASSUMPTIONS c13_modelled_dependencies_pinned". Print Assumptions c13_modelled_dependencies_pinned.
 Eval vm_compute in "ASSUMPTIONS c13_modelled_functions_unchanged_request". Print Assumptions c13_modelled_functions_unchanged_request.
+Eval vm_compute in "ASSUMPTIONS c13_feature_table_unchanged". Print Assumptions c13_feature_table_unchanged.
